@@ -8,7 +8,6 @@
    severity of every diagnostic that survived the ignore comments.  [effective c d] is the severity
    after the rule overrides of .falco.yml. *)
 From Coq Require Import List Bool Arith.
-From Coq Require Strings.String.
 From Falco Require Import Base.Bytes Model.Verdict Proofs.VerdictProofs.
 Import ListNotations.
 Open Scope list_scope.
@@ -67,29 +66,19 @@ Theorem C04_terminal_spec :
     else map (fun d => (fst d, effective c d)) (filter (fun d => visible (verbosity c) (effective c d)) (diags x)).
 Proof. exact terminal_spec. Qed.
 
-(* a witness with all four severities, an override in each direction and -vv *)
-Import Coq.Strings.String.
-Local Open Scope string_scope.
-Local Open Scope list_scope.
-Example C04_ex :
-  let r := fun s => Strings.String.list_byte_of_string s in
-  let ov := overrides_of [(r "a/err", r "warning"); (r "b/warn", r "ERROR"); (r "c/info", r "Ignore"); (r "d/x", r "warn")] in
-  let x := {| parse_error_main := false; parse_error_included := false;
-              diags := [(r "a/err", SevError); (r "b/warn", SevWarning); (r "c/info", SevInfo); (r "d/x", SevInfo); (r "e/y", SevError)] |} in
-  forall j v, let o := run_lint {| json := j; verbosity := v; overrides := ov |} x in
+(* non-vacuity witness (Proofs/VerdictProofs.v ex_overrides / ex_input): all four severities, an
+   override in each direction, an invalid level: same verdict under every flag combination *)
+Theorem C04_ex_all_flags :
+  forall j v, let o := run_lint {| json := j; verbosity := v; overrides := ex_overrides |} ex_input in
   exit o = 1 /\ summary o = Some (2, 1, 1).
-Proof. intros r ov x j v. destruct j; destruct v as [|[|v]]; vm_compute; auto. Qed.
+Proof. exact ex_all_flags. Qed.
 
 (* Before the repair the first theorem was false: `falco lint -json` on a file with a syntax error
    printed "0 errors" and exited 0. *)
 Theorem C04_unrepaired_json_swallows_parse_error :
   exists c x, parse_error_main x = true /\ exit (run_lint_unrepaired c x) = 0 /\
               summary (run_lint_unrepaired c x) = Some (0, 0, 0).
-Proof.
-  exists {| json := true; verbosity := 0; overrides := fun _ => None |},
-         {| parse_error_main := true; parse_error_included := false; diags := [] |}.
-  vm_compute. auto.
-Qed.
+Proof. exact unrepaired_json_swallows_parse_error. Qed.
 
 Print Assumptions C04_exit_iff.
 Print Assumptions C04_exit_is_0_or_1.
@@ -97,4 +86,5 @@ Print Assumptions C04_counts_spec.
 Print Assumptions C04_flags_irrelevant.
 Print Assumptions C04_json_doc_spec.
 Print Assumptions C04_terminal_spec.
+Print Assumptions C04_ex_all_flags.
 Print Assumptions C04_unrepaired_json_swallows_parse_error.
